@@ -212,17 +212,17 @@ def gen_deck(rng):
         if imp_on_cells:
             val = rng.choice([1, 1, 1, 2, 0.5]) if k else 1
             card += [T('imp:n', 'word', 'opt'), T('=', 'punct', 'opt'),
-                     T(val, 'int')]
+                     T(val, 'impnum')]
             if rng.random() < 0.2:
                 card += [T('imp:p', 'word', 'opt'), T('=', 'punct', 'opt'),
-                         T(rng.choice([0, 1]), 'int')]
+                         T(rng.choice([0, 1]), 'impnum')]
         cells.append(relink(card, 'end'))
     # outside world
     last = [T(cell_ids[-1]), T(0)]
     last += relink(soften(relink(expr_tokens(
         (':',) + tuple(('s', s) for s in rng.sample(sids, 2))), 'sp')), 'sp')
     if imp_on_cells:
-        last += [T('imp:n', 'word', 'opt'), T('=', 'punct', 'opt'), T(0)]
+        last += [T('imp:n', 'word', 'opt'), T('=', 'punct', 'opt'), T(0, 'impnum')]
     cells.append(relink(last, 'end'))
     lattice = None
     if rng.random() < 0.25:
@@ -279,7 +279,8 @@ def add_lattice(rng, cells, surfaces, imp_on_cells, mats):
     universes 4 and 5 (one sphere cell + its outside each).'''
     def imp(card, val=1):
         if imp_on_cells:
-            card += [T('imp:n', 'word', 'opt'), T('=', 'punct', 'opt'), T(val)]
+            card += [T('imp:n', 'word', 'opt'), T('=', 'punct', 'opt'),
+                     T(val, 'impnum')]
         return relink(card, 'end')
     base = 80
     for sid, mn, prm in [(81, 'px', [1.0]), (82, 'px', [-1.0]), (83, 'py', [1.0]),
@@ -416,10 +417,7 @@ TRAILERS = [' $ trailing', '$x', ' $ with & inside', '  $', ' $ 1 2 3', '\t$ tab
 
 class Layout:
     '''Random equivalence-preserving layout choices. numbers=True also
-    respells densities / fractions (Fortran forms) and surface / TR parameters
-    (forms Python's float reads). stream: None, 'fortran_surface_or_tr' or
-    'float_e0' (exactly one number is respelled into the known-failing
-    form).'''
+    respells the numbers (see `number`).'''
 
     def __init__(self, rng, numbers=False, stream=None):
         self.rng = rng
@@ -452,26 +450,15 @@ class Layout:
         return text
 
     def number(self, text, kind):
+        '''Another spelling of the same number. Every Fortran form for
+        densities, fractions, surface / TR / inline-transformation parameters
+        and IMP / FILL-array entries of data cards (MIP.mip.datacard.to_float,
+        normalize_float); importances on cell cards ('impnum') go through
+        float() only in the regular stream.'''
         rng = self.rng
-        if self.pending == 'float_e0' and kind in ('dens', 'frac') \
-                and rng.random() < 0.5:
-            self.pending = None
-            self.used.add('number:e0')
-            return respell(rng, text, True, e0=True)
-        if self.pending == 'fortran_surface_or_tr' and kind == 'fnum' \
-                and float(text) != 0 and rng.random() < 0.4:
-            self.pending = None
-            self.used.add('number:fortran-surface-or-tr')
-            for _ in range(50):
-                new = respell(rng, text, True)
-                try:
-                    float(new)
-                except ValueError:
-                    return new
-            return text + '+0' if '.' in text else text + '.0+0'
         if rng.random() >= self.p_num:
             return text
-        new = respell(rng, text, fortran=kind in ('dens', 'frac'))
+        new = respell(rng, text, fortran=kind != 'impnum')
         if new != text:
             self.used.add('number:' + kind)
         return new
@@ -537,8 +524,12 @@ def expand_card(card, layout):
                     layout.used.add('shorthand:' + kind)
             else:
                 toks = [str(v) for v in vals]
+            if layout is not None and layout.numbers:
+                # plain entries (not nR / nI / xM) in another spelling
+                toks = [layout.number(t, kind) if re.fullmatch(r'-?\d+', t) else t
+                        for t in toks]
             out += [(t, 'word', 'sp') for t in toks[:-1]] + [(toks[-1], 'word', glue)]
-        elif layout is not None and kind in ('dens', 'frac', 'fnum') \
+        elif layout is not None and kind in ('dens', 'frac', 'fnum', 'impnum') \
                 and layout.numbers:
             out.append((layout.number(text, kind), kind, glue))
         else:
@@ -647,19 +638,15 @@ def render(deck, layout):
     return text
 
 
-def render_one_fortran(deck, rng, where='surface_or_tr'):
-    '''Canonical text with exactly ONE parameter of a surface card or of a TR
-    data card (where='surface_or_tr'), or of an inline FILL / TRCL
-    transformation on a cell card (where='inline'), respelled in a form only
-    Fortran reads (5.0+0, .5d1); None when the deck has no such parameter.'''
+def render_one_fortran(deck, rng, where='cell_importance'):
+    '''Canonical text with exactly ONE importance value of a cell card
+    (IMP:N=1 -> IMP:N=1.0+0) respelled in a form only Fortran reads; None
+    when the deck has no such value.'''
     spots = []
-    for key in (('surfaces', 'data') if where == 'surface_or_tr' else ('cells',)):
-        for ci, card in enumerate(deck[key]):
-            if key == 'data' and not card[0][0].lstrip('*').lower().startswith('tr'):
-                continue
-            for ti, (_, kind, _) in enumerate(card):
-                if kind == 'fnum':
-                    spots.append((key, ci, ti))
+    for ci, card in enumerate(deck['cells']):
+        for ti, (_, kind, _) in enumerate(card):
+            if kind == 'impnum':
+                spots.append(('cells', ci, ti))
     if not spots:
         return None
     key, ci, ti = rng.choice(spots)
